@@ -272,6 +272,19 @@ func oracleC15(c c15Case) error {
 		if r2 := gengotypes.Ref(c.Ref.Path, rest); r2.String() != s || r2.Pkg().Path() != c.Ref.Path || r2.Name() != rest {
 			return fmt.Errorf("Ref(%q,%q) = %q", c.Ref.Path, rest, r2.String())
 		}
+		// the same split point when an ARGUMENT names a vendored package (the argument list is not part of the package path)
+		for _, varg := range []string{"[example.com/app/vendor/github.com/lib/q.T]", "[int," + c.Ref.Path + ".Box[x/vendor/y.T]]"} {
+			sv := c.Ref.Path + "." + c.Ref.Name + varg
+			if ip, ex := gengo.PkgImportPathAndExpose(sv); ip != c.Ref.Path || ex != c.Ref.Name {
+				return fmt.Errorf("PkgImportPathAndExpose(%q) = (%q, %q), want (%q, %q)", sv, ip, ex, c.Ref.Path, c.Ref.Name)
+			}
+			if prv, err := gengotypes.ParseRef(sv); err != nil || prv.Pkg().Path() != c.Ref.Path || prv.String() != sv {
+				return fmt.Errorf("ParseRef(%q) does not split at %q (err %v)", sv, c.Ref.Path, err)
+			}
+			if trv, err := gengotypes.ParseTypeRef(sv); err != nil || trv.String() != sv {
+				return fmt.Errorf("ParseTypeRef(%q) does not print back (err %v)", sv, err)
+			}
+		}
 	} else {
 		if perr == nil {
 			return fmt.Errorf("ParseRef(%q) found package %q in a reference without a package path", s, pr.Pkg().Path())
@@ -466,7 +479,7 @@ func TestC15(t *testing.T) {
 			"distinct by JSON encoding; the enumerate sub lists every tree up to a node bound over 6 labels",
 		Assumptions: []string{
 			"rendering is asserted for references whose top level has a package path (the statement's `path.Name`); unrooted top levels are checked for parsing only",
-			"paths contain no /vendor/ element",
+			"paths contain no /vendor/ element, except in two fixed argument lists appended to every rooted reference for the split-point checks",
 		},
 	})
 	defer r.Finish()
